@@ -533,6 +533,9 @@ class Interp:
                     return K(t is ast.IsNot)
                 if isinstance(other, Sym) and other.meta.get('not_none'):
                     return K(t is ast.IsNot)
+                if isinstance(other, Term) and other.op in ('hex', 'decode', 'encode', 'cat', 'sha256', 'sha512', 'to_bytes', 'from_bytes', 'fstr', 'tobytes',
+                                                            'crc', 'bslice', 'fromhex', 'reversed_bytes', 'int', 'strfmt', 'join'):
+                    return K(t is ast.IsNot)        # results of str/bytes/int operations are never None
                 return Cond(('isnone', repr(self.vkey(other))), t is ast.Is, f'{vrepr(other)[:40]} is None')
             if self.vkey(a) == self.vkey(b):
                 return K(t is ast.Is)
